@@ -136,7 +136,9 @@ class Gen(object):
             inner = [e(sc, d + 1), "%s:%s" % (e(sc, d + 1), e(sc, d + 1)), "::%s" % e(sc, d + 1), "%s, %s" % (e(sc, d + 1), e(sc, d + 1))][s]
             return "%s[%s]" % (self.atom(sc), inner)
         if k == 12:
-            o, c = self.pick([("(", ")"), ("[", "]"), ("{", "}")])
+            # exec-safe programs must not depend on object addresses: no set displays (iteration
+            # order of a set holding functions/objects depends on address-based hashes)
+            o, c = self.pick([("(", ")"), ("[", "]")] if self.exec_safe else [("(", ")"), ("[", "]"), ("{", "}")])
             items = [e(sc, d + 1) for _ in range(self.n(1, 4))]
             if self.chance(20):
                 items[self.n(0, len(items) - 1)] = "*" + self.atom(sc)
@@ -216,6 +218,8 @@ class Gen(object):
 
     def comprehension(self, sc, d):
         k = self.n(0, 3)
+        if self.exec_safe and k == 1:
+            k = 0  # no set comprehensions in exec-safe programs (see expr k == 12)
         allow_async = sc.kind == "function" and sc.is_async and not self.exec_safe
         elt = self.pick(["i", "i + 1", "(i, x)", self.expr(sc, d + 2)])
         cl = self.comp_clauses(sc, d, allow_async)
